@@ -140,6 +140,30 @@ type FS struct {
 	log     []Op   // operations since the last Checkpoint
 	nextIno int
 	tmpSeq  int
+	// fault injection (FailCall): the call that would append log entry faultIdx fails.
+	faultArmed bool
+	faultIdx   int
+	faultHalf  bool
+}
+
+// FailCall arms one fault: the system call that would become log entry number idx (0-based, counted from the last
+// Checkpoint) fails with EIO and has no effect; with half == true a failing write first performs half of its bytes
+// (a short write) and fails with ENOSPC. The failed call is logged as an effect-free entry "failed-<kind>". The fault
+// fires once.
+func (f *FS) FailCall(idx int, half bool) {
+	f.mu.Lock()
+	defer f.mu.Unlock()
+	f.faultArmed, f.faultIdx, f.faultHalf = true, idx, half
+}
+
+// faultLocked reports whether the call that is about to be logged must fail (and logs the failure).
+func (f *FS) faultLocked(kind, rel string) bool {
+	if !f.faultArmed || len(f.log) != f.faultIdx {
+		return false
+	}
+	f.faultArmed = false
+	f.add(Op{Kind: "failed-" + kind, Path: rel})
+	return true
 }
 
 var (
@@ -274,6 +298,9 @@ func OpenFile(name string, flag int, perm FileMode) (*File, error) {
 }
 
 func (f *FS) openLocked(name, rel string, flag int, perm FileMode) (*File, error) {
+	if f.faultLocked("open", rel) {
+		return nil, pathErr("open", name, syscall.EIO)
+	}
 	acc := flag & (O_RDONLY | O_WRONLY | O_RDWR)
 	if f.live.dirs[rel] {
 		if acc != O_RDONLY || flag&(O_CREATE|O_TRUNC) != 0 && flag&O_EXCL == 0 {
@@ -405,6 +432,20 @@ func (f *File) Write(b []byte) (int, error) {
 	if f.flag&O_APPEND != 0 {
 		off = int64(len(f.ino.data))
 	}
+	if f.fs.faultArmed && len(f.fs.log) == f.fs.faultIdx {
+		n := 0
+		if f.fs.faultHalf && len(b) > 1 {
+			n = len(b) / 2
+			f.fs.faultArmed = false
+			f.fs.writeAt(f.ino, off, b[:n])
+			f.off = off + int64(n)
+			f.fs.add(Op{Kind: "write", Path: f.rel, Ino: f.ino.id, Off: off, Len: n, data: append([]byte(nil), b[:n]...), Effect: EffData})
+			f.fs.add(Op{Kind: "failed-write", Path: f.rel})
+			return n, pathErr("write", f.name, syscall.ENOSPC)
+		}
+		f.fs.faultLocked("write", f.rel)
+		return 0, pathErr("write", f.name, syscall.EIO)
+	}
 	f.fs.writeAt(f.ino, off, b)
 	f.off = off + int64(len(b))
 	f.fs.add(Op{Kind: "write", Path: f.rel, Ino: f.ino.id, Off: off, Len: len(b), data: append([]byte(nil), b...), Effect: EffData})
@@ -436,6 +477,9 @@ func (f *File) WriteAt(b []byte, off int64) (int, error) {
 	}
 	f.fs.mu.Lock()
 	defer f.fs.mu.Unlock()
+	if f.fs.faultLocked("write", f.rel) {
+		return 0, pathErr("write", f.name, syscall.EIO)
+	}
 	f.fs.writeAt(f.ino, off, b)
 	f.fs.add(Op{Kind: "write", Path: f.rel, Ino: f.ino.id, Off: off, Len: len(b), data: append([]byte(nil), b...), Effect: EffData})
 	if f.flag&O_SYNC != 0 {
@@ -532,6 +576,9 @@ func (f *File) Sync() error {
 	}
 	f.fs.mu.Lock()
 	defer f.fs.mu.Unlock()
+	if f.fs.faultLocked("sync", f.rel) {
+		return pathErr("sync", f.name, syscall.EIO)
+	}
 	if f.dir {
 		f.fs.add(Op{Kind: "dirsync", Path: f.rel})
 	} else {
@@ -548,6 +595,9 @@ func (f *File) Close() error {
 	f.fs.mu.Lock()
 	defer f.fs.mu.Unlock()
 	f.closed = true
+	if f.fs.faultLocked("close", f.rel) {
+		return pathErr("close", f.name, syscall.EIO) // the descriptor is gone all the same
+	}
 	f.fs.add(Op{Kind: "close", Path: f.rel})
 	return nil
 }
@@ -562,6 +612,9 @@ func (f *File) Chmod(mode FileMode) error {
 	}
 	f.fs.mu.Lock()
 	defer f.fs.mu.Unlock()
+	if f.fs.faultLocked("chmod", f.rel) {
+		return pathErr("chmod", f.name, syscall.EIO)
+	}
 	f.ino.mode = mode.Perm()
 	f.fs.add(Op{Kind: "chmod", Path: f.rel, Ino: f.ino.id, Mode: mode.Perm(), Effect: EffData})
 	return nil
@@ -577,6 +630,9 @@ func (f *File) Truncate(size int64) error {
 	}
 	f.fs.mu.Lock()
 	defer f.fs.mu.Unlock()
+	if f.fs.faultLocked("truncate", f.rel) {
+		return pathErr("truncate", f.name, syscall.EIO)
+	}
 	f.fs.truncLocked(f.ino, f.rel, size)
 	return nil
 }
@@ -689,6 +745,9 @@ func Rename(oldpath, newpath string) error {
 	if !f.live.dirs[parent(nrel)] {
 		return &LinkError{Op: "rename", Old: oldpath, New: newpath, Err: syscall.ENOENT}
 	}
+	if f.faultLocked("rename", orel) {
+		return &LinkError{Op: "rename", Old: oldpath, New: newpath, Err: syscall.EIO}
+	}
 	if orel == nrel {
 		f.add(Op{Kind: "rename", Path: orel, Path2: nrel})
 		return nil
@@ -728,6 +787,9 @@ func Remove(name string) error {
 	if _, exists := f.live.names[rel]; !exists {
 		return pathErr("remove", name, syscall.ENOENT)
 	}
+	if f.faultLocked("remove", rel) {
+		return pathErr("remove", name, syscall.EIO)
+	}
 	delete(f.live.names, rel)
 	f.add(Op{Kind: "remove", Path: rel, Effect: EffDir})
 	return nil
@@ -756,6 +818,9 @@ func (f *FS) mkdirLocked(name, rel string) error {
 			return pathErr("mkdir", name, syscall.ENOTDIR)
 		}
 		return pathErr("mkdir", name, syscall.ENOENT)
+	}
+	if f.faultLocked("mkdir", rel) {
+		return pathErr("mkdir", name, syscall.EIO)
 	}
 	f.live.dirs[rel] = true
 	f.add(Op{Kind: "mkdir", Path: rel, Effect: EffDir})
@@ -805,6 +870,9 @@ func Chmod(name string, mode FileMode) error {
 	if !exists {
 		return pathErr("chmod", name, syscall.ENOENT)
 	}
+	if f.faultLocked("chmod", rel) {
+		return pathErr("chmod", name, syscall.EIO)
+	}
 	ino := f.live.inos[id]
 	ino.mode = mode.Perm()
 	f.add(Op{Kind: "chmod", Path: rel, Ino: id, Mode: mode.Perm(), Effect: EffData})
@@ -828,6 +896,9 @@ func Truncate(name string, size int64) error {
 	}
 	if size < 0 {
 		return pathErr("truncate", name, syscall.EINVAL)
+	}
+	if f.faultLocked("truncate", rel) {
+		return pathErr("truncate", name, syscall.EIO)
 	}
 	f.truncLocked(f.live.inos[id], rel, size)
 	return nil
